@@ -102,7 +102,7 @@ func init() {
 		return showBool(unicode.IsPrint(r) && strconv.IsPrint(r)) + " " + showBool(unicode.IsSpace(r))
 	}
 	register(&Prop{ID: "C20", Gen: genC20, Oracle: oracleC20,
-		Rule: "grammar-directed go.mod/go.work files (all directive kinds, single-line and block forms, quoting, comments before/suffix/after/in blocks/before ')', blank lines, CRLF, BOM, unknown verbs and blocks), one-byte mutations of those, token soup, malformed byte streams (unterminated strings/blocks, /* */, stray brackets, NUL, invalid UTF-8, Unicode spaces), long lines, end-of-input family (context x last-line shape x UTF-8 width of the payload x terminator, swept and behind randomly truncated files), block lines whose first token begins with a directive keyword (x suffix-comment layout x module directive before/after, swept for `module`, random for all keywords); leaf ops for quoting/regexps/TrimSpace; non-trivial = parses to >= 2 statements or fails past the first token; distinct by op line"})
+		Rule: "grammar-directed go.mod/go.work files (all directive kinds, single-line and block forms, quoting, comments before/suffix/after/in blocks/before ')', blank lines, CRLF, BOM, unknown verbs and blocks), one-byte mutations of those, token soup, malformed byte streams (unterminated strings/blocks, /* */, stray brackets, NUL, invalid UTF-8, Unicode spaces), long lines, end-of-input family (context x last-line shape x UTF-8 width of the payload x terminator, swept and behind randomly truncated files), block lines whose first token begins with a directive keyword (x suffix-comment layout x module directive before/after, swept for `module`, random for all keywords), files with several retract / require directives of which a later one carries a version the stub fixer rejects (every accept/reject pattern of 2 and 3 directives x lines/blocks x module directive first/last/middle/missing swept, up to 7 directives random; always parsed with the stub fixer), one physical line of 65535 / 65536 / 70000 / 200000 bytes in front of or being the module directive (12 shapes x LF/CRLF); leaf ops for quoting/regexps/TrimSpace; non-trivial = parses to >= 2 statements or fails past the first token; distinct by op line"})
 }
 
 // ---- version fixer stub (mirrors ModVerif.Modfile.fixStub)
@@ -1239,9 +1239,44 @@ func genC20(g *Gen, n int) {
 		}
 		i++
 	})
+	// fixer rejects a later directive (util_c20classes.go): both entry points with the stub fixer on every member
+	i = 0
+	c20FixSweep(func(f c20FixFile) {
+		c20GenFix(g, f, "fix-sweep", i)
+		i++
+	})
+	// one very long physical line at or before the module directive (util_c20classes.go). Each op line is
+	// 130–400 kB: the line scanner on the three lengths around 64 KiB of every shape, the strict parser on one
+	// length per shape in turn (the thorough tier: everything on every member)
+	i = 0
+	c20LongSweep(func(s, shape string, size int) {
+		if shape == "token-run-before" {
+			return // thousands of tokens on one line: the list-based model is quadratic there (oracle only)
+		}
+		if thorough || size <= 70000 {
+			c20Emit(g, "modfile.modulepath "+hx(s), true, "long-sweep")
+		}
+		if thorough || size == c20LongSizes[(i/8)%3] && i%2 == 0 {
+			// the REGENERATED directive layer needs 10–90 s for one 64 kB token (hand model: 30 ms): those
+			// members are compared with the hand model only
+			c20NoMirrorParse = c20LongTokenShapes[shape]
+			c20Emit(g, "modfile.parse nofix "+hx(s), true, "long-sweep")
+			c20NoMirrorParse = false
+		}
+		i++
+	})
+	// The deterministic families above (with their derived and mirrored ops) are more than the quick tier's n
+	// by themselves: the random stream gets at least n/2 ops of its own.
+	if n < g.st.Ops+n/2 {
+		n = g.st.Ops + n/2
+	}
 	for g.st.Ops < n {
 		if g.Chance(12) {
 			c20LeafOps(g)
+			continue
+		}
+		if g.Chance(3) {
+			c20GenFix(g, c20FixRandom(g.Rand), "fix-later-directive", g.Intn(4))
 			continue
 		}
 		s, tag := c20GenInputC20(g.Rand)
@@ -1644,9 +1679,17 @@ func oracleC20(g *Gen, n int) {
 	// the two exhaustive small-scope families (see their definitions for why they exist)
 	c20EOFSweep(func(s string) { c20OracleInput(g, s, "eof-sweep") })
 	c20KeywordSweep(func(s string) { c20OracleInput(g, s, "keyword-sweep") })
+	// the two classes of util_c20classes.go: errors of the version fixer are positioned at their own directive;
+	// a very long line at or before the module directive
+	c20FixSweep(func(f c20FixFile) { c20OracleFix(g, f, "fix-sweep") })
+	c20LongSweep(func(s, shape string, size int) { c20OracleInput(g, s, "long-sweep") })
 	for i := 0; i < n; i++ {
 		if g.Chance(10) {
 			c20OracleLaxIgnores(g)
+			continue
+		}
+		if g.Chance(4) {
+			c20OracleFix(g, c20FixRandom(g.Rand), "fix-later-directive")
 			continue
 		}
 		s, tag := c20GenInputC20(g.Rand)
